@@ -172,6 +172,12 @@ class FactoryRun:
             from asphalt.core import start_background_task_factory
 
             self.factory = await start_background_task_factory(**kw)       # the owner is the current context here
+        elif self.case.get("factory_from_nested"):
+            # started on the owner while another (nested, short-lived) context is current: the factory still belongs to
+            # the owner - its tasks inherit from the owner, it lives as long as the owner
+            async with Context() as inner:
+                inner.add_resource(TYPES[0](990), "inner_only")
+                self.factory = await owner.start_background_task_factory(**kw)
         else:
             self.factory = await owner.start_background_task_factory(**kw)
         t0 = anyio.current_time()
